@@ -22,9 +22,6 @@ from . import common
 from .common import zlit, listlit, strlit
 
 _EQ = None
-# False = /repo as it is today (explicit_path returns whatever the listed line elements spell: findings F11, F11b).
-# Set to True in the same step as the fix: commit that validates the explicit path (model_ccp_checked in Model/Route.v).
-EXPLICIT_CHECKED = False
 
 
 def eqpt():
@@ -401,7 +398,7 @@ def coq_rq(N, rq, obs):
 
 
 def coq_net_term(N, pairs):
-    return (f'run_net {"true" if EXPLICIT_CHECKED else "false"} {N.coq_graph()} {N.coq_kinds()} {N.coq_oms()} {N.coq_fibres()} '
+    return (f'run_net {N.coq_graph()} {N.coq_kinds()} {N.coq_oms()} {N.coq_fibres()} '
             f'{listlit([coq_rq(N, rq, obs) for rq, obs in pairs])}')
 
 
@@ -532,23 +529,6 @@ def judge(ctx, N, rq, obs, line, case):
                                case, impl=obs['path'], model=wf)
 
 
-def match_f11(v):
-    """explicit include list whose OMS chain loops: explicit_path returns a broken 'path'"""
-    fl = v.get('flags', {})
-    return (v['key'] == 'invalid_path' and fl.get('explicit') and fl.get('explicit_equal') and fl.get('loop')
-            and fl.get('ok_plain') == 'F')
-
-
-def match_f11b(v):
-    """explicit_path returns the path spelled by the line elements although it does not cross the include list in order"""
-    fl = v.get('flags', {})
-    return (v['key'] in ('includes_not_crossed', 'path_instead_of_block', 'not_shortest') and fl.get('explicit')
-            and fl.get('explicit_equal') and fl.get('ok_plain') == 'T' and fl.get('ispart') == 'F')
-
-
-MATCHERS = {'F11-explicit-loop': match_f11, 'F11b-explicit-skips-includes': match_f11b}
-
-
 # ------------------------------------------------------------------ large meshes: dual-potential certificate
 BIG = 10 ** 15
 
@@ -571,7 +551,45 @@ def dijkstra(adj, s):
     return dist, prev
 
 
+def gen_big_request(rng, N, k):
+    """large mesh: unconstrained, or an include list that some route is known to satisfy"""
+    a, b = rng.sample(N.sites, 2)
+    rq = {'id': str(k), 'src': f'trx {a}', 'dst': f'trx {b}', 'nodes': [], 'loose': [], 'style': 'big_none', 'bidir': False}
+    r = rng.random()
+    if r < 0.45:
+        return rq
+    sp = sorted(simple_paths_sites(N.topo, a, b, rng, limit=40), key=len)
+    if not sp:
+        return rq
+    if r < 0.75:
+        # ROADMs of one of the few shortest (in hops) site paths found: the constrained search of gnpy stays cheap
+        p = rng.choice(sp[:4])
+        inner = p[1:-1]
+        if inner:
+            idx = sorted(rng.sample(range(len(inner)), rng.randint(1, min(3, len(inner)))))
+            rq['nodes'] = [f'roadm {inner[i]}' for i in idx]
+            rq['style'] = 'big_roadms'
+    elif r < 0.9:
+        # every hop of an arbitrary site path spelled by one line element: explicit path, no search at all
+        p = rng.choice(sp)
+        rq['nodes'] = [rng.choice(line_elements(N, x, y)) for x, y in zip(p, p[1:])]
+        rq['style'] = 'big_explicit'
+    else:
+        p = rng.choice(sp[:4])
+        x, y = rng.choice(list(zip(p, p[1:])))
+        rq['nodes'] = [rng.choice(line_elements(N, x, y))]
+        rq['style'] = 'big_line'
+    m = rng.random()
+    rq['loose'] = (['STRICT'] * len(rq['nodes']) if m < 0.6 else ['LOOSE'] * len(rq['nodes']) if m < 0.8
+                   else [rng.choice(['STRICT', 'LOOSE']) for _ in rq['nodes']])
+    return rq
+
+
 def run_big(ctx, rng, nnets, fixed=None):
+    """12-40 site meshes: no enumeration.  The returned path is judged by route_ok (with the include list: every list
+    generated here can be met, so LOOSE or STRICT it must be crossed) and optimality by one potential per leg
+    s -> includes -> t (seg_cert_ok; plain potential_ok without list).  When the leg distances do not add up to the
+    weight of the path nothing is concluded (a loop-free route may have to be longer than the leg-wise bound)."""
     terms, meta = [], []
     for i in range(nnets if fixed is None else len(fixed)):
         if fixed is None:
@@ -588,48 +606,55 @@ def run_big(ctx, rng, nnets, fixed=None):
             ctx.violation('edge_weight_not_fibre_length', f'edge {u} -> {v} weighs {got}, fibre length rule gives {want}',
                           {'big': True, 'topo': topo, 'requests': []})
         cases, keep = [], []
-        for k in range(6 if fixed is None else len(fixed[i]['requests'])):
-            if fixed is None:
-                a, b = rng.sample(N.sites, 2)
-                rq = {'id': str(k), 'src': f'trx {a}', 'dst': f'trx {b}', 'nodes': [], 'loose': [], 'style': 'big_none',
-                      'bidir': False}
-            else:
-                rq = fixed[i]['requests'][k]
+        for k in range(8 if fixed is None else len(fixed[i]['requests'])):
+            rq = gen_big_request(rng, N, k) if fixed is None else fixed[i]['requests'][k]
             obs = drive_request(N, rq)
             case = {'big': True, 'topo': topo, 'requests': [rq]}
             ctx.case(case, True)
             ctx.count('big_requests')
+            ctx.count('style_' + rq['style'])
             if obs['out'] != 'P':
-                ctx.violation('big_no_path', f'connected mesh, gnpy {obs["out"]}', case)
+                ctx.violation('big_no_path', f'a route meeting the list exists by construction, gnpy {obs["out"]}', case)
                 continue
             s, t = N.id[rq['src']], N.id[rq['dst']]
-            dist, prev = dijkstra(N.adj, s)
-            pi = [BIG if d is None else d for d in dist]
-            q = [t]
-            while q[-1] != s:
-                q.append(prev[q[-1]])
-            q.reverse()
-            cases.append(f'({s},{t},{listlit(map(str, pi))},{listlit(map(str, obs["path"]))})')
-            keep.append((case, obs, q, dist[t]))
+            inc = [N.id[u] for u in obs['clean_nodes']]
+            legs = [s] + inc + [t]
+            pis, bound, shorter = [], 0, None
+            for u, v in zip(legs, legs[1:]):
+                dist, prev = dijkstra(N.adj, u)
+                pis.append([BIG if d is None else d for d in dist])
+                bound += dist[v] if dist[v] is not None else BIG
+                if not inc:
+                    q = [v]
+                    while q[-1] != u:
+                        q.append(prev[q[-1]])
+                    shorter = q[::-1]
+            cases.append(f'({s},{t},{listlit(map(str, inc))},{listlit([listlit(map(str, pi)) for pi in pis])},'
+                         f'{listlit(map(str, obs["path"]))})')
+            keep.append((case, obs, shorter, bound, bool(inc)))
         if cases:
             terms.append(f'run_big {N.coq_graph()} {listlit(cases)}')
             meta.append((N, keep))
     lines = common.coq_eval('C11', 'Prelude Model.Route Run.C11', terms, per_file=1, tag='big')
     for (N, keep), line in zip(meta, lines):
-        for (case, obs, q, dt), res in zip(keep, line.split(';')):
+        for (case, obs, q, bound, has_inc), res in zip(keep, line.split(';')):
             ok, cert, w = res.split(',')
             if ok != 'T':
-                ctx.violation('invalid_path', 'large mesh: returned path is not a loop-free walk between the ends', case,
-                              path=obs['path'])
-            elif cert != 'T':
-                if int(w) > dt:
-                    ctx.violation('not_shortest', f'large mesh: weight {w} cm, a walk of weight {dt} cm exists', case,
-                                  path=obs['path'], shorter=q)
+                ctx.violation('invalid_path', 'large mesh: returned path is not a loop-free walk between the ends crossing '
+                              'the include list in order', case, path=obs['path'])
+            elif cert == 'T':
+                ctx.count('big_certified_optimal_with_list' if has_inc else 'big_certified_optimal')
+            elif has_inc:
+                if int(w) < bound:
+                    ctx.corr_break('corr:Route.seg_cert_ok', 'path lighter than the leg-wise lower bound', case, impl=w, model=bound)
                 else:
-                    ctx.corr_break('corr:Route.potential_ok', 'certificate rejected although weights agree', case,
-                                   impl=w, model=cert)
+                    ctx.count('big_with_list_optimality_not_judged')
+            elif int(w) > bound:
+                ctx.violation('not_shortest', f'large mesh: weight {w} cm, a walk of weight {bound} cm exists', case,
+                              path=obs['path'], shorter=q)
             else:
-                ctx.count('big_certified_optimal')
+                ctx.corr_break('corr:Route.potential_ok', 'certificate rejected although weights agree', case,
+                               impl=w, model=cert)
 
 
 # ------------------------------------------------------------------ run
@@ -647,7 +672,8 @@ def run(ctx):
                 'gnpy x 8 random requests each (no list / ROADM lists / line-element lists spelling a whole path, a part, '
                 'a loop / shuffled / with transceivers and unknown names; STRICT, LOOSE and mixed) driven through '
                 'correct_json_route_list + compute_path_dsjctn + find_reversed_path; judged in Coq by route_ok and '
-                'model_route over the complete enumeration; 12-40 site meshes judged by potential_ok; a case is '
+                'model_route over the complete enumeration; 12-40 site meshes (with and without satisfiable lists) judged by '
+                'route_ok + potential_ok / seg_cert_ok; a case is '
                 'non-trivial when it carries an include list; distinct by content hash')
     nets = []
     if ctx.replay:
@@ -703,7 +729,9 @@ def run(ctx):
         'gnpy itself (successor order); edge weights are NOT: they are recomputed as fibre length of the span the edge '
         'leaves / 0.01 m otherwise, x100 = integer cm (exactness checked per network) and compared with the weight '
         'attribute gnpy set (oracle key edge_weight_not_fibre_length)',
-        'optimality on 12-40 site meshes is judged by the dual-potential certificate (potentials computed by an '
-        'untrusted Dijkstra in the harness, checked in Coq); include lists are exercised on the 2-8 site meshes only',
+        'optimality on 12-40 site meshes is judged by the dual-potential certificate, one potential per leg when the '
+        'request has an include list (potentials computed by an untrusted Dijkstra in the harness, checked in Coq); with '
+        'a list, optimality is concluded only when the leg distances add up to the weight of the path (counter '
+        'big_with_list_optimality_not_judged otherwise); unsatisfiable lists are exercised on the 2-8 site meshes only',
     ]
-    return common.finish(ctx, MATCHERS)
+    return common.finish(ctx)
